@@ -127,7 +127,7 @@ func (c *Handler) PopulateTokenEndpointResponse(ctx context.Context, request fos
 	atLifespan := fosite.GetEffectiveLifespan(request.GetClient(), fosite.GrantTypeJWTBearer, fosite.AccessToken, c.Config.GetAccessTokenLifespan(ctx))
 	_, err := c.IssueAccessToken(ctx, atLifespan, request, response)
 	var rfcErr *fosite.RFC6749Error
-	if err != nil && !errors.As(err, &rfcErr) {
+	if err != nil && (!errors.As(err, &rfcErr) || rfcErr.ErrorField == fosite.ErrSerializationFailure.ErrorField) {
 		// a storage failure handed through by IssueAccessToken
 		return errorsx.WithStack(fosite.ErrServerError.WithWrap(err).WithDebug(err.Error()))
 	}
